@@ -1133,6 +1133,18 @@ pub fn shrink(prop: &str, case: &HistCase, signature: &str) -> HistCase {
 }
 
 pub fn eval_history(ctx: &mut Ctx, prop: &str, case: &HistCase) {
+    if case.ctor != "factory" && !ctx.replay_mode {
+        // an object from a factory-less constructor cannot be capped by the SAT-boundary monitor: the
+        // history is first put to a monitored object; only if that one behaves is the other one run
+        // (a defect that makes a search spin would otherwise hang the shard instead of being reported)
+        let mut monitored = case.clone();
+        monitored.ctor = "factory".to_string();
+        let o = judge_history(prop, &monitored);
+        if o.violation.is_some() || o.harness_error.is_some() {
+            eval_history(ctx, prop, &monitored);
+            return;
+        }
+    }
     let o = judge_history(prop, case);
     ctx.evals_by(o.evals);
     for (k, v) in o.counts.iter() {
